@@ -588,7 +588,8 @@ func reifyMergeValue(
 		if err != nil {
 			return reflect.Value{}, raiseExpectedObject(opts.opts, val)
 		}
-		return old, reifyMap(opts.opts, old, sub, opts.validators)
+		// the old value can be a pointer to a map (element of a map or list)
+		return pointerize(t, old.Type(), old), reifyMap(opts.opts, old, sub, opts.validators)
 
 	case reflect.Struct:
 		sub, err := val.toConfig(opts.opts)
